@@ -424,8 +424,14 @@ func (s *Sim) Run(n int, arrive []int64, body func(task int)) {
 	Cur = nil
 }
 
+// OnTaskExit, if set, is told when a task's goroutine ends (vrace forgets its private memory).
+var OnTaskExit func(s *Sim, id int)
+
 func (s *Sim) taskDone(t *Task) {
 	s.note(t, KDone, 0)
+	if OnTaskExit != nil {
+		OnTaskExit(s, t.ID)
+	}
 	var next *Task
 	if !s.aborted && s.unfinishedCallers() == 0 {
 		// every caller has returned: the run is over, daemons are torn down
